@@ -33,6 +33,7 @@ type gen struct {
 	rtAsked      bool       // the runtime issued its first next in this generation
 	pre          [][]string // ops issued before anything else (fake process behaviours)
 	resetPending bool
+	restorePolled, restoreRequested bool
 }
 
 func newGen(r *rng.R, family string) *gen {
@@ -44,6 +45,11 @@ func newGen(r *rng.R, family string) *gen {
 	}
 	if family == "sizes" {
 		ne = r.Intn(2)
+	}
+	if family == "restore" {
+		ne = r.Intn(2)
+		g.cfg.snapshot = true
+		g.pre = append(g.pre, []string{"init"})
 	}
 	g.cfg.exts = append([]string{}, names[:ne]...)
 	if r.Chance(1, 5) {
@@ -64,7 +70,7 @@ func newGen(r *rng.R, family string) *gen {
 	}
 	g.cfg.timeout = 2000
 	switch family {
-	case "timeouts", "faults", "chaos", "shutdown":
+	case "timeouts", "faults", "chaos", "shutdown", "concurrent":
 		g.cfg.timeout = 300 + 100*r.Intn(4)
 	case "sizes":
 		g.cfg.timeout = 8000
@@ -119,6 +125,7 @@ func (g *gen) next(w *world) []string {
 		misuse, fault, conc = 4, 3, 2
 	case "concurrent":
 		conc = 8
+		fault = 3 // extra callers must also be tried while a failure reset is in progress
 	case "shutdown":
 		fault = 3
 	}
@@ -198,6 +205,22 @@ func (g *gen) next(w *world) []string {
 			add(fault, "rt", "initerror", "Runtime.InitBoom")
 		}
 	}
+	if g.family == "restore" && liveRt {
+		// snapshot protocol: restore poll, platform restore request, hook completion / error / timeout
+		if !g.rtAsked && !blocked["rt.restorenext"] && !g.restorePolled {
+			add(40, "rt", "restorenext")
+		}
+		if !g.restoreRequested && callers == 0 {
+			add(25, "restore", []string{"250", "2000"}[g.r.Intn(2)], fmt.Sprintf("AKID%d", g.nops))
+		}
+		if g.restoreRequested && !g.rtAsked {
+			add(8, "rt", "restoreerror", []string{"Runtime.HookBoom", "bad_type"}[g.r.Intn(2)])
+			add(5, "rt", "initerror", "Function.RestoreInit")
+			add(6, "sleep", "400")
+		}
+		add(6, "rt", "creds", []string{"good", "wrong", "good", ""}[g.r.Intn(3)])
+		add(2, "exit", "runtime", "1")
+	}
 	if g.family == "shutdown" {
 		if callers > 0 {
 			add(3, "sleep", fmt.Sprint(g.cfg.timeout+150))
@@ -240,6 +263,12 @@ func (g *gen) observe(ws []string, obs string) {
 	if ws[0] == "rt" && ws[1] == "next" {
 		g.rtAsked = true
 	}
+	if ws[0] == "rt" && ws[1] == "restorenext" {
+		g.restorePolled = true
+	}
+	if ws[0] == "restore" {
+		g.restoreRequested = true
+	}
 	if ws[0] == "reset" || ws[0] == "shutdown" {
 		g.resetPending = true
 	}
@@ -268,6 +297,8 @@ func (g *gen) observe(ws []string, obs string) {
 			// a fresh runtime process: protocol state starts over
 			g.rtHolding = false
 			g.rtAsked = false
+			g.restorePolled = false
+			g.restoreRequested = false
 			g.everNext = map[string]bool{}
 			for k := range g.registered {
 				if strings.HasPrefix(k, "i") {
